@@ -68,7 +68,8 @@ class Dyn(Calls):
         if isinstance(v, VTuple):
             if not v.items:
                 t = z3.Const("py_empty_tuple", ObjSort)
-                self.assume(z3.And(t != PyNone, kind_of(t) == 10, z3.Not(z3.Function("py_truthy", ObjSort, z3.BoolSort())(t))))
+                self.assume(z3.And(t != PyNone, kind_of(t) == 10, z3.Not(z3.Function("py_truthy", ObjSort, z3.BoolSort())(t)),
+                                   z3.Function("seq_len", ObjSort, z3.IntSort())(t) == 0))
                 return t
             f = z3.Function("py_tuple%d" % len(v.items), *([ObjSort] * len(v.items) + [ObjSort]))
             t = f(*[self.box(x) for x in v.items])
@@ -1019,6 +1020,12 @@ class Dyn(Calls):
         if args and isinstance(args[0], VOpt) and self.spec_mode:
             return super().bi_len([args[0].val], kwargs, node)
         return super().bi_len(args, kwargs, node)
+
+    def bi_repr(self, args, kwargs, node):
+        return VStr(self.fresh("repr", z3.StringSort()))
+
+    def m_str_encode(self, recv, args, kwargs):
+        return VObj(z3.Function("utf8", z3.StringSort(), ObjSort)(recv.t), "bytes")
 
     def m_str_join(self, recv, args, kwargs):
         return VStr(self.fresh("joined", z3.StringSort()))
